@@ -6,7 +6,11 @@ code compiled from the tree, bit for bit:
   (ii)  the time loop of GenericSolver::execute driven by a scripted mtest::Study mock (harness/C48/mock.hxx),
   (iii) MTest::checkConvergence with ImposedGradient / ImposedThermodynamicForce constraints,
 plus (iv) complete runs of the real MTest (prepare, Newton with Lagrange multipliers, convergence test,
-sub-stepping) on a mock behaviour, on which the property's own predicate is evaluated at every requested time.
+sub-stepping) on a mock behaviour, on which the property's own predicate is evaluated at every requested time,
+and (v) complete MTest problems through the public interface of mtest::MTest (modelling hypotheses and the
+constraints they imply, tolerances through the setters, constraints built from component names, constraint
+options and events, make_evolution, function evolutions, MTest::execute() over the requested times), observed
+at the MTest result file (checks/c48full.py, harness/C48/fullrun.hxx).
 """
 import json
 import math
@@ -15,7 +19,7 @@ import random
 from fractions import Fraction
 
 import vlib
-from checks import c48lib
+from checks import c48lib, c48full
 from checks.c48lib import hx, uh, pretty
 
 PROPS = ["TfelVerif.C48.Props"]
@@ -139,8 +143,11 @@ def float_eval(ev, t):
     return prev[1]
 
 
-FORMULAS = ["t", "2*t+1", "a*t", "a+b", "a*b-t", "b*b", "(a+b)/2", "sin(t)+a", "t*t-b", "a", "b+1", "3",
-            "exp(-t)*b", "max(a,b)", "t/(1+b*b)"]
+#: P, Q stand for the names of the two evolutions of the manager
+FORMULAS = ["t", "2*t+1", "P*t", "P+Q", "P*Q-t", "Q*Q", "(P+Q)/2", "sin(t)+P", "t*t-Q", "P", "Q+1", "3",
+            "exp(-t)*Q", "max(P,Q)", "t/(1+Q*Q)", "Q-t*P", "t+P+Q"]
+#: names of the evolutions: before and after "t" in every ordering the evaluator may use for its variables
+FE_NAMES = [("a", "b"), ("a", "b"), ("a", "x"), ("u", "z"), ("x", "a"), ("T", "u")]
 
 
 def gen_lines(rng, n_lpi, n_fe, n_solve, n_cc):
@@ -161,12 +168,13 @@ def gen_lines(rng, n_lpi, n_fe, n_solve, n_cc):
                      "line": "lpi %d %s %d %s %d %s" % (len(pts), pairs(pts), len(sets), pairs(sets), len(qs),
                                                         " ".join(map(hx, qs)))})
     for _ in range(n_fe):
-        f = rng.choice(FORMULAS)
+        na, nb = rng.choice(FE_NAMES)
+        f = rng.choice(FORMULAS).replace("P", na).replace("Q", nb)
         da, ea = evo_desc(rng)
         db, eb = evo_desc(rng)
         qs = [rng.uniform(-5, 5) for _ in range(rng.randint(1, 4))]
-        reqs.append({"kind": "fe", "formula": f, "evs": {"a": ea, "b": eb}, "qs": qs,
-                     "line": "fe %s 2 a %s b %s %d %s" % (f, da, db, len(qs), " ".join(map(hx, qs)))})
+        reqs.append({"kind": "fe", "formula": f, "evs": {na: ea, nb: eb}, "qs": qs,
+                     "line": "fe %s 2 %s %s %s %s %d %s" % (f, na, da, nb, db, len(qs), " ".join(map(hx, qs)))})
     for _ in range(n_solve):
         reqs.append(gen_solve(rng))
     for _ in range(n_cc):
@@ -508,8 +516,10 @@ def run(ck):
                     reqs.append(json.loads(line))      # a request with all the fields of a generated one
     reqs += gen_lines(rng, 1500 if q else 40000, 300 if q else 5000, 4000 if q else 150000, 2000 if q else 60000)
     mts = [gen_mt(rng) for _ in range(300 if q else 6000)]
+    mxs = [c48full.gen_mx(rng) for _ in range(400 if q else 8000)]
     text = "".join(r["line"] + "\n" for r in reqs)
-    pi = c48lib.run_harness(ck, harness, text + "".join(r["line"] + "\n" for r in mts))
+    pi = c48lib.run_harness(ck, harness, text + "".join(r["line"] + "\n" for r in mts) +
+                            "".join(r["line"] + "\n" for r in mxs))
     pm = ck.run([driver], input=text, timeout=1500)
     if pi.returncode != 0:
         ck.violation("harness-crash", "the implementation harness aborted (sanitizer or crash)",
@@ -622,6 +632,37 @@ def run(ck):
         report("mt:no-run-completes", False, "none of the %d complete MTest runs on the mock behaviour completes any more "
                "(verdicts: %s): the Newton iterations no longer reach the imposed loading" % (len(mts), {k: v for k, v in hist.items() if k.startswith("mt:")}),
                {"request": mts[0]["line"]})
+    # (v) complete MTest problems through the public interface, observed at the result file
+    mx_checked = 0
+    mx_end = {}
+    mx_all = {}
+    mx_events_end = 0
+    for j, r in enumerate(mxs):
+        k = len(reqs) + len(mts) + j
+        a = impl[k] if k < len(impl) else "missing"
+        verdict = a.split()[0] if a else "missing"
+        cls = r["hyp"] if r["strain"] else "general-behaviour"
+        hist["mx:" + verdict] = hist.get("mx:" + verdict, 0) + 1
+        mx_all[cls] = mx_all.get(cls, 0) + 1
+        distinct.add(("mx", cls, verdict, r["dyn"], r["freq"], bool(r["events"]), r["ppolicy"], r["nl"] != 0))
+        if verdict.startswith("err") or verdict == "missing" or verdict.startswith("exc:other") or verdict == "bad-op":
+            report("mx:harness", False, "MTest problem through the public interface failed unexpectedly: " + a[:300],
+                   {"request": r["line"], "problem": c48full.decoded(r), "implementation": a[:400]})
+            continue
+        holds, why, n, site = c48full.mx_property(r, a)
+        mx_checked += n
+        if verdict == "end":
+            mx_end[cls] = mx_end.get(cls, 0) + 1
+            mx_events_end += bool(r["events"])
+        if not holds:
+            disagreements += 1
+            report(site, True, "MTest problem (public interface, result file): " + why,
+                   {"request": r["line"], "problem": c48full.decoded(r), "result_file_rows": c48full.parse_rows(a)})
+    for cls, n in sorted(mx_all.items()):
+        if n >= 10 and mx_end.get(cls, 0) == 0:
+            report("mx:no-run-completes:" + cls, False, "none of the %d complete MTest problems of class '%s' completes any "
+                   "more (verdicts: %s)" % (n, cls, {k: v for k, v in hist.items() if k.startswith("mx:")}),
+                   {"request": next(r["line"] for r in mxs if (r["hyp"] if r["strain"] else "general-behaviour") == cls)})
     for key, (found, what, rep) in sorted(classes.items()):
         if key.startswith("corr:") and classes.get(key[5:], (False,))[0]:
             continue      # the same site is already reported with a concrete failing input
@@ -633,6 +674,7 @@ def run(ck):
         "FunctionEvolution: the formula itself is evaluated by tfel::math::Evaluator (property C13); checked here: FunctionEvolution(t) = Evaluator(formula) on the bindings t, name -> evolution(t) given by the model",
         "theorems are in exact arithmetic (linearly ordered field, eps > 0 abstract): rounding is not modelled; NaN/inf only in the Float correspondence",
         "convergence of the Newton iterations for generated behaviours is numerics: not claimed (partial)",
+        "complete problems (mx): the behaviour is the mock of harness/C48/mockbehaviour.hxx reporting the drawn hypothesis and type; for plane stress / axisymmetrical generalised plane stress its stiffness leaves the out-of-plane component uncoupled (what a generated behaviour does itself); events are declared in the activating or desactivating list of every constraint that has options",
     ]
     samples = []
     for i in (0, len(reqs) // 3, len(reqs) // 2, len(reqs) - 1):
@@ -640,13 +682,19 @@ def run(ck):
             samples.append("%s -> impl '%s'" % (pretty(reqs[i]["line"])[:200], pretty(impl[i] if i < len(impl) else "?")[:200]))
     if mts:
         samples.append("%s -> impl '%s'" % (pretty(mts[0]["line"])[:200], pretty(impl[len(reqs)] if len(reqs) < len(impl) else "?")[:300]))
+    if mxs:
+        k = len(reqs) + len(mts)
+        samples.append("%s -> impl '%s'" % (pretty(mxs[0]["line"])[:240], pretty(impl[k] if k < len(impl) else "?")[:300]))
     return ck.finish({
-        "evaluations": len(reqs) + len(mts), "distinct_nontrivial": len(distinct),
+        "evaluations": len(reqs) + len(mts) + len(mxs), "distinct_nontrivial": len(distinct),
         "rule": "requests = seeded random evolutions tables/queries, time-loop scripts (both modes, all exception kinds), convergence-test vectors, FunctionEvolution formulas and complete MTest runs on a mock behaviour; distinct = (operation, mode, verdict, attempt-count bucket / table size / constraint count ...) classes actually observed; non-trivial = every class (each reaches a different branch combination)",
         "exhaustive": False, "disagreements": disagreements,
         "traces_validated_against_impl": len(reqs),
         "histogram": hist,
         "mtest_runs_completed": mt_end, "imposed_components_checked_at_requested_times": mt_checked,
+        "public_interface_problems": len(mxs), "public_interface_problems_completed_by_class": mx_end,
+        "public_interface_problems_with_events_completed": mx_events_end,
+        "result_file_components_checked": mx_checked,
         "observation_lpi_tabulated_points_not_reproduced_bitwise_by_double_rounding": rounding_points,
         "observation_nan_increment_or_residual_accepted_by_checkConvergence": nan_accepted,
         "samples": samples,
